@@ -177,6 +177,7 @@ class TextFile:
 
     def __init__(self, text):
         self.text = text
+        self.pos = 0
 
     def __enter__(self):
         return self
@@ -186,9 +187,9 @@ class TextFile:
 
     def __iter__(self):
         t = self.text
-        start = 0
+        start = self.pos
         n = len(t)
-        i = 0
+        i = start
         while i < n:
             if t[i] == "\n":
                 yield t[start:i + 1]
@@ -197,8 +198,19 @@ class TextFile:
         if start < n:
             yield t[start:]
 
-    def read(self):
-        return self.text
+    def read(self, n=None):
+        if n is None:
+            out, self.pos = self.text[self.pos:], len(self.text)
+        else:
+            out, self.pos = self.text[self.pos:self.pos + n], min(len(self.text), self.pos + n)
+        return out
+
+    def seek(self, pos, whence=0):
+        self.pos = pos
+        return pos
+
+    def tell(self):
+        return self.pos
 
     def close(self):
         pass
